@@ -109,6 +109,11 @@ def run(pid, tier, seed, replay):
             elif node_full(nd):
                 checked += 1
                 ops[nd["name"]] = ops.get(nd["name"], 0) + 1
+    spilled = {}
+    for c in ran:
+        for nd in c["nodes"]:
+            if nd.get("spill", [0, 0])[0] > 0:
+                spilled[nd["name"]] = spilled.get(nd["name"], 0) + 1
     nt = {vlib.case_hash([c["desc"], c["tp"], c["bs"], c["opts"]]) for c in ran
           if len(c["nodes"]) >= 3 and any(sum(nd["cnt"]) > 0 for nd in c["nodes"])}
     nt |= {vlib.case_hash(c["hist"]) for c in polls if any(isinstance(e, dict) and e["B"] > 0 for e in c["hist"])}
@@ -119,17 +124,19 @@ def run(pid, tier, seed, replay):
     ck.coverage.update({
         "evaluations": len(cases),
         "distinct_nontrivial": len(nt),
-        "rule": "plans: C01-generator SQL (19 streams), a 55-statement SQL corpus (joins of every kind incl. semi/anti/mark, aggregates, grouping sets, "
+        "rule": "plans: C01-generator SQL (19 streams), a 57-statement SQL corpus (joins of every kind incl. semi/anti/mark, aggregates, grouping sets, "
                 "windows, unnest, limits/offsets, set operations) under 9 option sets x target_partitions {1,2,3,4} x batch_size {1,2,3,8192}, and randomly "
                 "composed operator trees (depth 1-4) of filter / projection / local+global limit with skip / sort with fetch / sort-preserving merge / "
                 "repartition round-robin, hash, order-preserving / coalesce batches, partitions / union / hash join CollectLeft, Partitioned / sort-merge / "
-                "nested-loop / cross join with all 10 join types / aggregate single, partial+final; non-trivial = at least 3 operators and some rows flowing. "
+                "nested-loop / cross join with all 10 join types / aggregate single, partial+final, a third of them under a 600..12000 byte memory pool "
+                "(spilling repartitions / joins; plans that run out of memory are skipped); non-trivial = at least 3 operators and some rows flowing. "
                 "poll histories: up to 11 events of Pending / batch of {0,1,2,3,7,100,8192} rows / Err / None; non-trivial = delivers rows",
         "plan_status": status,
         "plans_by_source": streams,
         "operator_nodes_checked": checked,
         "operator_kinds_checked": ops,
         "operators_without_output_rows_metric": nometric,
+        "operator_nodes_that_spilled(memory-limited trees)": spilled,
         "mismatches_on_nodes_not_consumed_in_full(not failures)": early,
         "traces_validated_against_impl": len(terms) - len(bad),
         "samples": [polls[0] if polls else None,
@@ -139,7 +146,8 @@ def run(pid, tier, seed, replay):
             "which operator wires which wrapper is code structure: explored with the verified monitor as oracle, not proved"],
     })
     ck.assumptions = ["an operator's output counts as consumed in full when every executed partition of it was polled to Ready(None)",
-                      "usize counters do not wrap", "spill metrics (spilled_rows) are not examined"]
+                      "usize counters do not wrap",
+                      "spill metrics (spilled_rows) are recorded but not compared with the spill files' contents"]
     ck.notes.append("level exploration: theorems cover BaselineMetrics::record_poll (exact tie on poll histories) and the monitor; "
                     "operators are judged by the monitor on executed plans")
     return ck.finish()
